@@ -156,7 +156,9 @@ def agreement_job(job):
         return oqupy.MeanFieldSystem(systems, field_eom=eom)
     rhos = [np.array([[0.6, 0.2 - 0.1j], [0.2 + 0.1j, 0.4]]) for _ in range(nsys)]
     try:
-        baths = [oqupy.Bath(0.5 * sz, probes.make_probe_sd(w, dt)) for _ in range(nsys)]
+        # a different bath for every system (same dimension): influence data must not leak between systems
+        baths = [oqupy.Bath((0.5 - 0.2 * j) * sz + 0.15 * j * sx, probes.make_probe_sd(w * (1 + 0.6 * j), dt))
+                 for j in range(nsys)]
         kw = {} if kmem is None else {"dkmax": kmem}
         params = oqupy.TempoParameters(dt=dt, epsrel=1e-13, **kw)
         a = oqupy.MeanFieldTempo(mk(), baths, params, [r.copy() for r in rhos], 0.3 - 0.1j, t0).compute(
